@@ -555,10 +555,17 @@ pub fn run(args: &Args) -> Report {
         let base = notify_threads();
         let dir = crate::util::scratch_dir("c15w");
         std::fs::write(dir.join("x.a"), b"v0").unwrap();
+        std::fs::write(dir.join("p.n0"), b"panic").unwrap();
         let k = 6;
         for i in 0..k {
             let cache = AssetCache::with_source(FileSystem::new(&dir).expect("fs source"));
             let _ = cache.load::<Leaf<1, 0, true>>("x");
+            if i % 2 == 1 {
+                // a loader that panics, caught by the caller: nothing of the cache may stay behind
+                crate::util::quiet_panics(true);
+                let _ = std::panic::catch_unwind(std::panic::AssertUnwindSafe(|| cache.load::<Node<0>>("p").is_ok()));
+                crate::util::quiet_panics(false);
+            }
             std::fs::write(dir.join("x.a"), format!("v{i}")).unwrap();
             cache.hot_reload();
             drop(cache);
